@@ -309,7 +309,8 @@ fn threshold_unstable(kc: &KCase, r: &SearchAlgorithmResult) -> bool {
     for a in &cands {
         for b in &cands {
             let x = rank(sim, &kc.base, a, b);
-            if (x - t).abs() < 1e-9 {
+            // disjoint routes rank exactly 0 in any summation order
+            if x != 0.0 && (x - t).abs() < 1e-9 {
                 return true;
             }
         }
@@ -361,8 +362,10 @@ fn oracle_ok(ctx: &mut Ctx, idx: usize, kc: &KCase, b: &Built, r: &SearchAlgorit
         })
         .collect();
     // 2. first route is a least-cost route
+    let mut fwd_case = c.clone();
+    fwd_case.reverse = false;
     if kc.bf_ok && s != t && admissible_setting(c, kc.style) {
-        if let (Some(dist), Some(first)) = (bellman_ford(c, b, s), r.routes.first()) {
+        if let (Some(dist), Some(first)) = (bellman_ford(&fwd_case, b, s), r.routes.first()) {
             let slice = if wrapped && first.len() >= 2 { &first[1..first.len() - 1] } else { &first[..] };
             let total: f64 = slice.iter().map(|e| e.total_cost().as_f64()).sum();
             if !close(total, dist[t], 1e-9, 1e-9) {
@@ -916,7 +919,18 @@ fn run_single_via(ctx: &mut Ctx, idx: usize, kc: &KCase) {
                     ctx.fail(
                         idx,
                         &format!("ksp/answerable-query-error-{}", stage),
-                        format!("the plain search answers the query but single-via returned error '{}' (stage {}, {} intersection pops)", k, stage, ex.pops.len()),
+                        format!(
+                            "the plain search answers the query ({}) but single-via returned error '{}' (stage {}, {} intersection pops; turn restrictions {:?}; limits {:?})",
+                            match &plain.outcome {
+                                Outcome::Ok(pr) => format!("route {:?}", pr.routes.first().map(|r| route_ids(r))),
+                                _ => String::new(),
+                            },
+                            k,
+                            stage,
+                            ex.pops.len(),
+                            turn_pairs(c),
+                            c.term
+                        ),
                     );
                 }
             }
